@@ -197,7 +197,7 @@ func (a *acc) flush() {
 
 func chunks(r *vf.Run, rng *vf.RNG, stream uint64, total, per int, fn func(a *acc, rng *vf.RNG, i int)) {
 	n := (total + per - 1) / per
-	stride := 1
+	stride := 8 // fingerprints are registered for a sample of the cases (see acc.eval)
 	if vf.Thorough() {
 		stride = 64
 	}
@@ -545,6 +545,9 @@ func judgeNative(a *acc, b []byte, src string) {
 	switch {
 	case err == nil && !ok:
 		a.count("native_real_accept/ref_reject")
+		if a.counts["native_real_accept/ref_reject:"+why]++; a.counts["native_real_accept/ref_reject:"+why] > 20 {
+			return // the same clause already reported 20 times from this chunk: counted, witness not rebuilt
+		}
 		r.Violation("native-varuint:accepts-second-encoding:"+why, fmt.Sprintf("DecodeVarUint accepted a byte form (%s) that is not the one encoding of the returned value", why),
 			map[string]interface{}{"bytes": hx(b), "returned": got, "consumed": n, "canonical_encoding_of_returned": hx(refNativeVarUint(got)), "src": src})
 	case err != nil && ok:
